@@ -359,7 +359,7 @@ func main() {
 			have[g.name] = true
 		}
 		var present []string
-		for _, k := range []string{"assign", "add", "lower", "nop", "send", "recv2", "genBuiltinDeferWrapper", "_select", "callBin", "_return", "call", "getFunc", "genFunctionWrapper", "rangeChan", "recv"} {
+		for _, k := range []string{"assign", "add", "lower", "nop", "send", "recv2", "genBuiltinDeferWrapper", "_select", "callBin", "_return", "call", "getFunc", "genFunctionWrapperFor", "rangeChan", "recv"} {
 			if have[k] {
 				present = append(present, k)
 			}
